@@ -14,9 +14,9 @@ SEQ_CFG = "INIT SeqInit\nNEXT SeqNext\nINVARIANT SeqEmit\nCHECK_DEADLOCK FALSE\n
 SOFT = ["SoftNoForgedDelivered", "SoftGenuineAccepted", "SoftBitIdentical", "SoftNothingElse"]
 
 
-def trace_cfg(diag):
+def trace_cfg(diag, stale=True):
     s = "INIT TraceInit\nNEXT TraceNext\nINVARIANT TypeOK\n"
-    for i in SOFT + (["DiagShadow"] if diag else []):
+    for i in SOFT + (["SoftStaleReadKey"] if stale else []) + (["DiagShadow"] if diag else []):
         s += "INVARIANT %s\n" % i
     return s + "POSTCONDITION TraceAccepted\nCHECK_DEADLOCK FALSE\n"
 
@@ -90,6 +90,12 @@ def _stats(tracefile):
 
 def _validate(rep, part, trace, diag):
     r = vlib.validate_traces(PID, "Trace_PacketProt", trace_cfg(diag), trace)
+    if len(r["rejected"]) >= 150:
+        # vlib reports at most 200 soft violations per chunk and round: make sure the many hits of one (known) kind do not hide
+        # another kind in a later run -- validate again without the stale-read-key and diagnostic invariants
+        r2 = vlib.validate_traces(PID, "Trace_PacketProt", trace_cfg(False, stale=False), trace)
+        keys = {(json.dumps(x["run"][0], sort_keys=True), x["reason"]) for x in r["rejected"]}
+        r["rejected"] += [x for x in r2["rejected"] if (json.dumps(x["run"][0], sort_keys=True), x["reason"]) not in keys]
     st = _stats(trace)
     # vacuity: the round-trip direction must have been exercised for what the part claims to cover
     need = ([(sp, 0, n) for sp in ("initial", "zerortt", "handshake") for n in (1, 2, 3, 4)] + [("onertt", g, n) for g in (0, 1, 2) for n in (1, 2, 3, 4)]
